@@ -16,13 +16,19 @@ POOL = ["", "a", "b", "ab", "ab\n", "ac", "abc", "int x;\n", "int x;\n ", "int y
 # the leading block only cannot separate them, so several classes land in one bucket
 _BANNER = "/* generated table - do not edit */\n" * 130          # 4810 bytes > 4096
 BIG = [_BANNER + "int t[] = {1};\n", _BANNER + "int t[] = {2};\n", _BANNER + "int t[] = {1};\n ", _BANNER]
+# contents that differ as BYTES but not as decoded text: line-end conventions and bytes that are not
+# valid UTF-8 (a Latin-1 accent in a comment): reading in text mode (universal newlines,
+# errors="replace") maps each group to one string.  Contents are encoded as Latin-1: one byte per character.
+TEXTY = [["int a;\nint b;\n", "int a;\r\nint b;\r\n", "int a;\rint b;\r"],
+         ["// caf\xe9\nint c;\n", "// caf\xe8\nint c;\n", "// caf\xc3\xa9\nint c;\n"],
+         ["x\n", "x\r\n", "x\r"]]
 EXT = [".c", ".h", ".cpp", ".f90"]
 
 
 class C16(Check):
     prop_id = "C16"
     rule = ("random code bases: 0-12 files with contents from a pool of 10 byte strings (empty, prefix pairs, large files sharing a 4.8 kB beginning with classes interleaved in path order, "
-            "last-byte differences), symlinked twins, twins excluded by pattern, nested directories; a case is "
+            "last-byte differences; files equal as decoded text but not as bytes: LF / CRLF / CR line ends, bytes that are not valid UTF-8), symlinked twins, twins excluded by pattern, nested directories; a case is "
             "non-trivial if at least one duplicate group exists AND at least one file is unique or a link/excluded twin is present")
     assumptions = ["all regular files of a case carry the same mtime (worst case for stat-based shortcuts)",
                    "filecmp.cmp(shallow=False) is byte equality; hashlib digest is a function of content",
@@ -63,6 +69,19 @@ class C16(Check):
             out.append(files)
         out.append([["v1/table.c", BIG[0], "file"], ["v2/table.c", BIG[1], "file"], ["v3/table.c", BIG[0], "file"],
                     ["util/a.h", "int u;\n", "file"], ["util/b.h", "int u;\n", "file"]])
+        # byte-different files that are equal as decoded text, next to genuine twins
+        out.append([["unix/main.cpp", TEXTY[0][0], "file"], ["win/main.cpp", TEXTY[0][1], "file"],
+                    ["fr/cafe.cpp", TEXTY[1][0], "file"], ["it/cafe.cpp", TEXTY[1][1], "file"],
+                    ["inc/a.h", "int u;\n", "file"], ["inc/b.h", "int u;\n", "file"]])
+        for _ in range(25 if self.tier == "quick" else 400):
+            files = []
+            for i in range(self.rng.randint(2, 7)):
+                g = self.rng.choice(TEXTY)
+                d = self.rng.choice(["", "sub/", f"v{i}/"])
+                files.append([f"{d}x{i}{self.rng.choice(EXT)}", self.rng.choice(g), "file"])
+            if self.rng.random() < 0.5:
+                files.append(["small.c", self.rng.choice(POOL), "file"])
+            out.append(files)
         # exhaustive small block: every assignment of 3 contents to <= 4 plain files
         lim = 4 if self.tier == "quick" else 6
         import itertools
@@ -77,7 +96,7 @@ class C16(Check):
         return [[n, c, k.startswith("link:")] for (n, c, k) in case if k != "excluded"]
 
     def encode(self, case):
-        return enc([[n, c.encode(), l] for (n, c, l) in self.members(case)])
+        return enc([[n, c.encode("latin-1"), l] for (n, c, l) in self.members(case)])
 
     def impl(self, case):
         import codebasin
@@ -92,7 +111,7 @@ class C16(Check):
             if k.startswith("link:"):
                 os.symlink(os.path.relpath(root / k[5:], p.parent), p)
             else:
-                p.write_bytes(c.encode())
+                p.write_bytes(c.encode("latin-1"))
                 # one timestamp for every file (as after a checkout or an archive extraction): a
                 # comparison that trusts os.stat signatures (size + mtime) cannot tell the files apart
                 os.utime(p, ns=(1_700_000_000_000_000_000, 1_700_000_000_000_000_000))
